@@ -23,11 +23,14 @@ type Conn struct {
 type Case struct {
 	Params    map[string]string `json:"params,omitempty"`
 	HasParams bool              `json:"has_params,omitempty"`
-	Version   string            `json:"version,omitempty"`
-	Auth      bool              `json:"auth,omitempty"`
-	Conns     []Conn            `json:"conns"`
-	Parallel  bool              `json:"parallel,omitempty"`
-	OptSeed   int               `json:"opt_seed,omitempty"`
+	// Earlier: map of an earlier GlobalParameters call (see script.Config.Earlier)
+	Earlier    map[string]string `json:"earlier,omitempty"`
+	HasEarlier bool              `json:"has_earlier,omitempty"`
+	Version    string            `json:"version,omitempty"`
+	Auth       bool              `json:"auth,omitempty"`
+	Conns      []Conn            `json:"conns"`
+	Parallel   bool              `json:"parallel,omitempty"`
+	OptSeed    int               `json:"opt_seed,omitempty"`
 }
 
 const q = "select 1"
@@ -170,6 +173,15 @@ func runConn(env *script.Env, c Case, cc Conn) (r connResult) {
 		}
 		got[msgs[i].Key] = msgs[i].Val
 	}
+	// whether a later GlobalParameters call replaces or extends an earlier one is not stated: keys
+	// that only the earlier map has may be announced (with its value) or not
+	if c.HasEarlier {
+		for k, v := range c.Earlier {
+			if _, inMain := want[k]; !inMain && got[k] == v {
+				delete(got, k)
+			}
+		}
+	}
 	if got["is_superuser"] == "on" {
 		want["is_superuser"] = "on" // the property names the parameter, not its value
 	}
@@ -284,7 +296,7 @@ func Run(c Case) core.Result {
 	}
 	res.Labels = append(res.Labels, fmt.Sprintf("connections=%d", len(c.Conns)))
 
-	cfg := script.Config{Params: c.Params, HasParams: c.HasParams, Version: c.Version, SetLimit: true, Limit: 1 << 14, OptSeed: c.OptSeed}
+	cfg := script.Config{Params: c.Params, HasParams: c.HasParams, Earlier: c.Earlier, HasEarlier: c.HasEarlier && c.HasParams, Version: c.Version, SetLimit: true, Limit: 1 << 14, OptSeed: c.OptSeed}
 	cfg.Table.Q = map[string]script.Outcome{q: {Stmts: []script.Stmt{{Ops: []script.Op{{K: "complete", Tag: "OK"}}}}}}
 	if c.Auth {
 		cfg.Auth = &script.AuthSpec{User: "*", Pass: "pw"}
